@@ -131,6 +131,8 @@ def main(argv=None):
                 tot["witnesses"] += 1
                 if x["witness_conforms"]:
                     tot["witnesses_conform"] += 1
+                elif x["witness_conforms"] is None:
+                    tot["witnesses_unvalidated"] = tot.get("witnesses_unvalidated", 0) + 1
                 else:
                     model_errors.append(f"{h.name}: model and real build disagree on witness {x['choices']}\n"
                                         f"    inputs: {json.dumps(x['witness'])[:600]}\n    real  : {json.dumps(x.get('witness_real'))[:600]}\n"
@@ -200,6 +202,7 @@ def main(argv=None):
                        "sat": tot["sat"], "sat_reproduced": tot["sat_reproduced"], "sat_not_reproduced": tot["sat_not_reproduced"],
                        "known_region_hits": tot["known_hits"], "unknown": tot["unknown"], "queries": tot["queries"],
                        "solver_s": round(tot["solver_s"], 2), "witnesses_replayed": tot["witnesses"],
+                       "witnesses_not_comparable_uninterpreted_reducer": tot.get("witnesses_unvalidated", 0),
                        "functions_encoded": funcs, "harnesses": per_h,
                        "exhaustive": not inconclusive and not model_errors,
                        "source_sha256": env.source_hashes(),
